@@ -250,11 +250,11 @@ impl MultiRecordLog {
             };
             num_bytes_written += self.record_log_writer.write_record(record)?;
         }
-        if num_bytes_written > 0 {
-            // We need to fsync here! We are remove files from the FS
-            // so we need to make sure our empty queue positions are properly persisted.
-            self.persist(PersistAction::FlushAndFsync)?;
-        }
+        // We need to fsync here! We are remove files from the FS
+        // so we need to make sure our empty queue positions are properly persisted,
+        // and so is the truncate/delete record that made those files obsolete: it may
+        // still sit in the write buffer even if no queue position was written.
+        self.persist(PersistAction::FlushAndFsync)?;
         Ok(num_bytes_written)
     }
 
